@@ -16,7 +16,7 @@ BUDGET = {'quick': 900, 'thorough': 3000}
 BOUNDS = {'quick': dict(max_segs=3, val_len=1, max_sym=4), 'thorough': dict(max_segs=4, val_len=2, max_sym=6)}
 ASSUMPTIONS = [
     'bounded: tokens of <= max_segs segments, variable values of <= val_len characters (arbitrary scalars except NUL/newline); literal characters exclude quotes, backquote, backslash and parentheses (those make the word a different kind of word: embedded quoting / command substitution) and digits (`$1` is positional-parameter syntax, property C15)',
-    'variables A, AB, B live in the shell variable table, every other name is unset; $$ is an arbitrary pid; previous_status arbitrary 0..255',
+    'variables A, AB, B live in the shell variable table (tokens of <= 2 segments with one referenced name: also exported, or exported with an older value left in the shell table - the exported value is the current one), every other name is unset; $$ is an arbitrary pid; previous_status arbitrary 0..255',
     'expand_env is driven directly on one token with its quote tag (the tokenizer that produces the tag is C01)',
 ]
 SEGS = ['L', '$A', '${A}', '$AB', '$B', '${B}', '$?', '$$', '${?}']
@@ -104,8 +104,18 @@ def body(inst, b):
         I.h_text = text; I.h_values = values
         sh = hlib.mk_shell(I, previous_status=status)
         envs = hlib.field(p, sh, 'envs')
+        # where the CURRENT value lives: 0 shell variable table, 1 exported (process environment), 2 exported with an older
+        # value still in the shell table (`A=old ; export A=new`): the expansion must see the exported one
+        stores = {}
         for k, v in values.items():
-            envs.items.append([RString(lit(k)), RString(v)])
+            st_ = I.choose('store_' + k, 3) if len(inst['refs']) == 1 and len(inst['segs']) <= 2 else 0
+            st_ = I.concretize(st_)
+            stores[k] = st_
+            if st_ == 0: envs.items.append([RString(lit(k)), RString(v)])
+            else:
+                I.env.vars.append([lit(k), tuple(v)])
+                if st_ == 2: envs.items.append([RString(lit(k)), RString(lit('stale'))])
+        I.h_stores = stores
         toks = hlib.tokens_value([(lit(inst['tag']), tuple(text))])
         cs = [sh]; ct = [toks]
         I.call_fn('expand_env', [Ref(cs, 0), Ref(ct, 0)])
@@ -142,8 +152,16 @@ def b_not_eq(c, cp):
     if e is False: return True
     return z3.Not(e)
 
-def native_expand(nat, tag, text, values, status):
-    args = ['shvar:%s=%s' % (k, v) for k, v in values.items()] + ['status:%d' % status, tag, text]
+def native_expand(nat, tag, text, values, status, stores=None):
+    stores = stores or {}
+    args = []
+    for k, v in values.items():
+        st_ = stores.get(k, 0)
+        if st_ == 0: args += ['unsetenv:' + k, 'shvar:%s=%s' % (k, v)]      # the native process keeps its environment between calls
+        else:
+            args.append('env:%s=%s' % (k, v))
+            if st_ == 2: args.append('shvar:%s=stale' % k)
+    args += ['status:%d' % status, tag, text]
     for k in VARS:
         if k not in values: args.insert(0, 'unsetenv:' + k)
     return nat.call('expand_env', *args)
@@ -184,7 +202,8 @@ def run_instance(prog, inst, tier, seed, deadline):
         def on_ok(l, I):
             if I.env.pid is not None: return None
             text, values, status = concretize(I, inst, l.model)
-            try: got = native_expand(nat, inst['tag'], text, values, status)
+            if any('\x00' in v for v in values.values()) or any(st_ and ('=' in k) for k, st_ in I.h_stores.items()): return None
+            try: got = native_expand(nat, inst['tag'], text, values, status, I.h_stores)
             except nativemod.NativeHang: return ('mismatch', dict(text=text, values=values, native='hang'))
             exp = [[explore.chars_to_str(l.model, t[0]), explore.chars_to_str(l.model, t[1])] for t in I.h_got]
             if got != exp: return ('mismatch', dict(text=text, values=values, symbolic=exp, native=got))
@@ -195,7 +214,7 @@ def run_instance(prog, inst, tier, seed, deadline):
                 text, values, status = concretize(I, inst, m)
                 rescanned = any('$' in v for v in values.values())
                 key = 'value-rescanned' if rescanned else 'expansion:%s:%s' % ('+'.join(inst['segs']), inst['tag'] or 'plain')
-                recs.append(dict(label=label, text=text, values=values, status=status, tag=inst['tag'], key=key,
+                recs.append(dict(label=label, text=text, values=values, status=status, tag=inst['tag'], key=key, stores=getattr(I, 'h_stores', {}),
                                  observed=[explore.chars_to_str(m, t[1]) for t in I.h_got], expected=explore.chars_to_str(m, I.h_want)))
             first = recs[0]; first['more'] = recs[1:]
             return first
@@ -226,7 +245,7 @@ def replay(v):
     nat = nativemod.Native(timeout=5)
     try:
         try:
-            got = native_expand(nat, v['tag'], v['text'], v['values'], v['status'])
+            got = native_expand(nat, v['tag'], v['text'], v['values'], v['status'], v.get('stores'))
         except nativemod.NativeHang:
             return dict(witness=dict(token=v['text'], values=v['values']), native='hang', reproduced=True)
         if isinstance(got, dict):
